@@ -81,7 +81,8 @@ def main():
     try:
         res["checks"] = {}
         for c in checks:
-            rcc, outc = sh(f"./check {c}", cwd=VERIF, timeout=3000)
+            rcc, outc = sh(f"./check {c}", cwd=VERIF, timeout=3000,
+                           env=dict(os.environ, VERIF_EVIDENCE_DIR="/tmp/seed_evidence"))
             viol = [l for l in outc.split("\n") if l.startswith("VIOLATION")][:4] + \
                 [l for l in outc.split("\n") if l.startswith("  ->")][:5]
             res["checks"][c] = {"exit": rcc, "lines": viol,
